@@ -60,7 +60,12 @@ class P:
         if rt in ("EmailVerify", "EmailVerifyEnd"):
             return "(R%s %s)" % (rt, "KTotp" if arg == "totp" else "KSms")
         if rt == "App":
-            v = (arg + "0000000")[:7]
+            v = (arg + "00000000")[:8]
+            if v[7] in "12":  # the v1 constructors: booleans instead of requirement set and refusal mode
+                assert v[2] in "nr", arg
+                return "(%s %s %s %s %s %s %s %s)" % ("RAppV1" if v[7] == "1" else "RAppMountedV1 false", b(v[2] == "r"),
+                                                     b(v[0] == "1"), b(v[1] == "1"), b(v[3] == "1"), b(v[4] == "1"),
+                                                     b(v[5] == "1"), b(v[6] == "1"))
             fr = dict(n="RespNotFound", r="RespRedirect", u="RespUnauthorized")[v[2]]
             return "(RApp %s %s %s %s %s %s %s)" % (b(v[0] == "1"), b(v[1] == "1"), fr, b(v[3] == "1"),
                                                    b(v[4] == "1"), b(v[5] == "1"), b(v[6] == "1"))
